@@ -19,7 +19,13 @@ text is the comma-joined isoschizomer list and the entry holds that list: `expec
 `r.isos`, in particular NO isoschizomers for an empty `<2>` line (nil and the empty list are
 identified, as for the suppliers of an empty `<7>`; the export writes `null` for both).  Until fix
 a3fb5a0 rebase.Parse returned the one-element list `[""]` there (`strings.Split("", ",")`).
-`wfRec` forbids an empty isoschizomer NAME, so a written list never holds `""`.
+`wfRec` forbids the one list that cannot be written, `[""]` (its text is the empty line, which denotes
+no isoschizomers); empty names next to others (`X,,Y`) are kept as written.
+
+A `<7>` letter that the table does not name is decoded to the EMPTY name, one list entry per letter
+(READING: the property says "decoded to the supplier named for that letter in the file's own supplier
+table"; for a letter no line of the table names there is no such supplier, and the empty name keeps the
+positions of the other letters) — `supplierOf`; letters need not be ASCII.
 -/
 namespace PolyVerif.Spec.RebaseListing
 open PolyVerif PolyVerif.LineText PolyVerif.Rebase
@@ -122,12 +128,12 @@ def wfSupplier (indent : Str) (s : Supplier) : Bool :=
   !isBlank s.code && s.code != '\n' && noNl s.name && noTags (supplierLine indent s) && decide (s.code.toNat < 128)
 
 def wfRec (sups : List Supplier) (r : Rec) : Bool :=
-  noNl r.name && r.isos.all (fun i => noNl i && !i.contains ',' && !i.isEmpty) && noNl r.recog && noNl r.meth
+  noNl r.name && r.isos.all (fun i => noNl i && !i.contains ',') && noNl r.recog && noNl r.meth
   && noNl r.org && noNl r.src && noNl r.codes && noNl r.refs
   && dispatches 2 (joinSep ',' r.isos) && dispatches 3 r.recog && dispatches 4 r.meth && dispatches 5 r.org
   && dispatches 6 r.src && dispatches 7 r.codes && dispatches 8 r.refs
   && r.moreRefs.all (fun l => noNl l && noTags l && l != trigger)
-  && r.codes.all fun c => (sups.map (·.code)).contains c
+  && r.isos != [[]]
 
 def wfLayout (ℓ : Layout) : Bool :=
   ℓ.prose.all (fun l => noNl l && noTags l && l != trigger) && ℓ.blank.all isBlank && ℓ.indent.all isBlank
